@@ -610,6 +610,58 @@ def custom_lp_keys_oracle(run):
             run.oracle_ok("probabilistic_frame")
 
 
+def prob_select_oracle(run):
+    """select_subsequence / slicing on a ProbabilisticTensorDictSequential: whatever is retained (the probabilistic module or
+    not), the selection is a sequence that runs and computes, for the requested out_keys, the values of the full sequence
+    (deterministic interaction type); it raises only when no module is left."""
+    from tensordict import TensorDict
+    from tensordict.nn import (ProbabilisticTensorDictModule as PM, ProbabilisticTensorDictSequential as PS, TensorDictModule as TM,
+                               set_interaction_type)
+    from tensordict.nn.probabilistic import InteractionType
+
+    def build(composite):
+        mods = [TM(lambda x: (x + 1, torch.ones_like(x)), in_keys=["x"], out_keys=["loc", "scale"]),
+                TM(lambda x: x * 2, in_keys=["x"], out_keys=["aux"]),
+                PM(in_keys=["loc", "scale"], out_keys=["a"], distribution_class=D.Normal)]
+        if composite:
+            mods += [TM(lambda a: (a * 3, torch.ones_like(a)), in_keys=["a"], out_keys=["loc2", "scale2"]),
+                     PM(in_keys={"loc": "loc2", "scale": "scale2"}, out_keys=["b"], distribution_class=D.Normal)]
+            return PS(*mods, return_composite=True)
+        return PS(*mods)
+    for composite in (False, True):
+        all_out = ["loc", "scale", "aux", "a"] + (["loc2", "scale2", "b"] if composite else [])
+        requests = [("out", [k]) for k in all_out] + [("out", ["aux", "a"]), ("in", ["x"]), ("slice", (0, 2)), ("slice", (1, None)), ("slice", (0, 1))]
+        for kind, arg in requests:
+            case = ["prob_select", "composite" if composite else "last-only", kind, str(arg)]
+            run.case(("prob_select", composite, kind, str(arg)))
+            td = TensorDict({"x": torch.arange(3.0)}, [3])
+            try:
+                with warnings.catch_warnings():
+                    warnings.simplefilter("ignore")
+                    with time_limit(60), set_interaction_type(InteractionType.MODE):
+                        seq = build(composite)
+                        full = seq(td.clone())
+                        if kind == "out":
+                            sub = seq.select_subsequence(out_keys=list(arg))
+                        elif kind == "in":
+                            sub = seq.select_subsequence(in_keys=list(arg))
+                        else:
+                            sub = seq[slice(*arg)]
+                        inp = td.clone() if kind != "slice" or arg[0] == 0 else full.select(*sub.in_keys).clone()
+                        got = sub(inp)
+            except TimeoutError:
+                raise
+            except Exception as e:  # noqa: BLE001
+                run.oracle_fail("prob_selection", case, f"raised {type(e).__name__}: {str(e)[:140]}", f"prob_select:raised:{type(e).__name__}")
+                continue
+            want = list(arg) if kind == "out" else [k for k in sub.out_keys if isinstance(k, str) and k in full.keys()]
+            bad = [k for k in want if k not in got.keys() or not torch.allclose(got[k], full[k])]
+            if bad:
+                run.oracle_fail("prob_selection", case, f"the selection differs from the full sequence on {bad}", "prob_select:values")
+            else:
+                run.oracle_ok("prob_selection")
+
+
 def context_oracle(run):
     """set_interaction_type / set_skip_existing restore the previous mode, nested and on exceptions"""
     from tensordict.nn import set_interaction_type, set_skip_existing, skip_existing
@@ -650,4 +702,5 @@ def run_prob(run, drv, ask):
     composite_direct_oracle(run)
     autoregressive_oracle(run)
     custom_lp_keys_oracle(run)
+    prob_select_oracle(run)
     context_oracle(run)
